@@ -40,7 +40,7 @@ TReset ==
   /\ IsEv("Cfg")
   /\ cfg' = [kind |-> Ev.kind, utf8 |-> Ev.utf8]
   /\ k' = 0 /\ pc' = "idle" /\ lst' = <<>> /\ plan' = <<>> /\ idx' = 0
-  /\ acc' = EmptyD /\ used' = NoneD /\ touched' = NoneD /\ pooled' = NoneD /\ rec' = EmptyD
+  /\ acc' = EmptyD /\ used' = NoneD /\ touched' = NoneD /\ dead' = NoneD /\ pooled' = NoneD /\ rec' = EmptyD
   /\ devs' = {} /\ obs' = ObsInit /\ hist' = <<>>
   /\ l' = l + 1 /\ drift' = FALSE /\ driftAt' = 0 /\ tno' = Ev.t /\ kviol' = {}
 
@@ -70,6 +70,7 @@ ObsApply(o, e) ==
                            ELSE IF e.res # "ok" THEN ObsTxnEnd(o) ELSE o
     [] e.e = "Statuses" -> ObsStatuses(o, cfg.kind, e.sts)
     [] e.e = "TxnEnd"   -> ObsTxnEnd(o)
+    [] e.e = "Panic"    -> ObsPanic(o)
     [] OTHER -> o
 
 M_Step ==
@@ -79,7 +80,7 @@ M_Step ==
   /\ driftAt' = IF drift THEN driftAt ELSE Ev.seq
   /\ obs' = ObsApply(obs, Ev)
   /\ l' = l + 1
-  /\ UNCHANGED <<cfg, k, pc, lst, plan, idx, acc, used, touched, pooled, rec, devs, hist, tno, kviol>>
+  /\ UNCHANGED <<cfg, k, pc, lst, plan, idx, acc, used, touched, dead, pooled, rec, devs, hist, tno, kviol>>
   /\ IF Ev.e = "End" THEN Publish(TRUE, driftAt', obs', kviol, devs) ELSE TRUE
 
 TNext == TReset \/ C_Step \/ M_Step
